@@ -23,7 +23,8 @@ CHECKS = {
          '(tree read in order = consumed input) in every state, and replays every behaviour; random 3-4 row tables '
          'with long sentences are judged by the same Pratt-style definition; the shunting-yard machine of '
          'operator_table.py, transcribed in PegVM (two stacks, commit marker, checkpoints), is model-checked to '
-         'compute that definition on every table and input (LawVMRefines, LawVMFlags, LawVMNoBadState)',
+         'compute that definition on every table of one or two rows and every input (LawVMRefines: refinement, sufficiency of '
+         'the static flags, no empty pop / spinning)',
     note='trusted: the Pratt-style definition PegSem!OpExpr as the reading of the property; bound: <= 3 rows '
          'exhaustively, token strings <= 5-6 (+ random up to 14 tokens)',
     tech='TLA+ Pratt reference (OpExpr/OpLed) and TLA+ transcription of the shunting-yard machine (PegVM!OTLoop), refinement checked by TLC; TLC-enumerated behaviours replayed into the implementation'),
